@@ -241,6 +241,16 @@ class O3:
         im = self.facts.impl_of(b)
         if im and im.get("trait") == "core::ops::Drop" and im["self_ty"].split("<")[0] in self.cbs:
             return True, "Drop for the control block (`&mut self`, reached only from a guarded drop of its Box)", []
+        # the test may live in a helper that reports it through its result (`take_if_unique() -> Option<Vec>`): judge the copies of
+        # this block in the inlined views, where the arm taken on the helper's result carries the facts of the helper's paths
+        if b.kind in ("fn", "assoc_fn") and depth == 0 and any(
+                (callee(t) or {}).get("res", {}) and (callee(t)["res"] or {}).get("local") for _, t in b.calls()):
+            from .inline import views, sites_in
+            for ib in views(self.facts, b):
+                copies = sites_in(ib, b.did, bi)
+                gs = [self.guard_at(ib, ci) for ci in copies]
+                if copies and all(gs):
+                    return True, "%s in %s (helpers inlined)" % ("; ".join(sorted(set(gs))), b.id), []
         if depth > 6 or b.did in seen:
             return False, "recursion", [(b, bi)]
         # closures run where they are passed (with_mut): continue at the parent's call that receives them
